@@ -36,12 +36,15 @@ def show_scales_info(info):
         for chunk_size in scale["chunk_sizes"]:
             size_in_chunks = [(s - 1) // cs + 1 for s,
                               cs in zip(size, chunk_size)]
-            num_chunks = np.prod(size_in_chunks)
+            # Python integers: NumPy 64-bit products overflow for huge volumes
+            num_chunks = (size_in_chunks[0] * size_in_chunks[1]
+                          * size_in_chunks[2])
             num_directories = (
                 sharding_num_directories
                 if sharding_num_directories is not None
                 else size_in_chunks[0] * (1 + size_in_chunks[1]))
-            size_bytes = np.prod(size) * dtype.itemsize * num_channels
+            size_bytes = (size[0] * size[1] * size[2]
+                          * dtype.itemsize * num_channels)
             print(f"Scale {scale_name}, {shard_info}, chunk size {chunk_size}:"
                   f" {num_chunks:,d} chunks, {num_directories:,d} directories,"
                   f" raw uncompressed size {readable_count(size_bytes)}B")
